@@ -1107,6 +1107,11 @@ def randcap(nrand, ra, dec, rad, get_radius=False, dorot=False, rng=None):
     if rng is None:
         rng = np.random.RandomState()
 
+    # work in double precision whatever scalar type the center and radius
+    # came in: with numpy.float32 scalars (say from a catalog column) the
+    # rotation angles below would be computed in single precision
+    ra, dec, rad = np.float64(ra), np.float64(dec), np.float64(rad)
+
     # generate uniformly in r**2
     if dec >= 89.9 or dec <= -89.9:
         dorot = True
